@@ -32,6 +32,7 @@ import Sds.Proofs.GenEqConstr5
 import Sds.Proofs.GenEqConstr3
 import Sds.Proofs.GenEqVec3
 import Sds.Proofs.GenEqFromExt
+import Sds.Proofs.GenEqFromExt2
 
 namespace Sds.C05
 open Sds Outcome
@@ -356,5 +357,27 @@ theorem int_vector_from_extend_as_translated_from_source (m : Mode) (cap : Nat) 
         Generated.gen_IntVector_from_iter_u64 m cap iter = ok (IntVec.ofList 64 (iter.map (·.toNat)))) :=
   ⟨fun v iter hwf hb => GenEq.int_extend_eq m cap v iter hwf hb, fun a hb => GenEq.int_from_vec_eq m cap a hb,
    fun iter hb => GenEq.int_from_iter_eq m cap iter hb⟩
+
+/-- **the `u8` / `u16` / `u32` / `usize` instances of `macro_rules! from_extend_int_vector` as translated from the source on
+this run** (`Generated/FnsFromExt2.lean`).  `Extend<$t>` does not mention the item type: its translation at every instance is
+definitionally the translation at `u64`.  `From<Vec<$t>>` and `FromIterator<$t>` build the empty vector of the instance's
+width `$w` and extend it — the model's `extend`, which stores each item truncated to `$w` bits. -/
+theorem int_vector_macro_instances_as_translated_from_source (m : Mode) (cap : Nat) (a : Array Word) (it : List Word) :
+    (@Generated.gen_IntVector_extend_u8 = @Generated.gen_IntVector_extend_u64 ∧
+     @Generated.gen_IntVector_extend_u16 = @Generated.gen_IntVector_extend_u64 ∧
+     @Generated.gen_IntVector_extend_u32 = @Generated.gen_IntVector_extend_u64 ∧
+     @Generated.gen_IntVector_extend_usize = @Generated.gen_IntVector_extend_u64) ∧
+    (a.size * 8 + 63 < U64 → Generated.gen_IntVector_from_vec_u8 m cap a = ok ((⟨0, 8, RawVec.empty⟩ : IntVec).extend a.toList)) ∧
+    (a.size * 16 + 63 < U64 → Generated.gen_IntVector_from_vec_u16 m cap a = ok ((⟨0, 16, RawVec.empty⟩ : IntVec).extend a.toList)) ∧
+    (a.size * 32 + 63 < U64 → Generated.gen_IntVector_from_vec_u32 m cap a = ok ((⟨0, 32, RawVec.empty⟩ : IntVec).extend a.toList)) ∧
+    (a.size * 64 + 63 < U64 → Generated.gen_IntVector_from_vec_usize m cap a = ok ((⟨0, 64, RawVec.empty⟩ : IntVec).extend a.toList)) ∧
+    (it.length * 8 + 63 < U64 → Generated.gen_IntVector_from_iter_u8 m cap it = ok ((⟨0, 8, RawVec.empty⟩ : IntVec).extend it)) ∧
+    (it.length * 16 + 63 < U64 → Generated.gen_IntVector_from_iter_u16 m cap it = ok ((⟨0, 16, RawVec.empty⟩ : IntVec).extend it)) ∧
+    (it.length * 32 + 63 < U64 → Generated.gen_IntVector_from_iter_u32 m cap it = ok ((⟨0, 32, RawVec.empty⟩ : IntVec).extend it)) ∧
+    (it.length * 64 + 63 < U64 → Generated.gen_IntVector_from_iter_usize m cap it = ok ((⟨0, 64, RawVec.empty⟩ : IntVec).extend it)) :=
+  ⟨⟨GenEq.int_extend_u8_is_u64, GenEq.int_extend_u16_is_u64, GenEq.int_extend_u32_is_u64, GenEq.int_extend_usize_is_u64⟩,
+   GenEq.int_from_vec_u8_eq m cap a, GenEq.int_from_vec_u16_eq m cap a, GenEq.int_from_vec_u32_eq m cap a,
+   GenEq.int_from_vec_usize_eq m cap a, GenEq.int_from_iter_u8_eq m cap it, GenEq.int_from_iter_u16_eq m cap it,
+   GenEq.int_from_iter_u32_eq m cap it, GenEq.int_from_iter_usize_eq m cap it⟩
 
 end Sds.C05
